@@ -30,7 +30,8 @@ SpObj(S) == [s |-> S, count |-> 0, mode |-> 0]
 -----------------------------------------------------------------------------
 SpAbsorb(par, o, data) ==
   LET \* ReAbsorb: "if we were squeezing output, then go back to the absorb phase"
-      o1 == IF o.mode = 1 THEN [s |-> P(o.s, par.fb), count |-> 0, mode |-> 0] ELSE o
+      \* (all three implementations run the full p^12 here, XOFA included)
+      o1 == IF o.mode = 1 THEN [s |-> P(o.s, 0), count |-> 0, mode |-> 0] ELSE o
       n  == Len(data)
   IN IF o1.count > 0 /\ par.rin - o1.count > n
      THEN [o1 EXCEPT !.s = XorIn(o1.s, o1.count, data), !.count = o1.count + n]
